@@ -992,7 +992,7 @@ def _locate_if_block(src, s, e, anchor):
         return s + toks[hits[0]].start, s + toks[c].end
 
 
-def _locate_stmt_range(src, s, e, start_anchor, end_anchor):
+def _locate_stmt_range(src, s, e, start_anchor, end_anchor, to_semicolon=False):
     """E3 statement-range lift: from the first token of `start_anchor` to the last token of the first
     occurrence of `end_anchor` after it (both must be unique / present); absolute offsets"""
     sub = src[s:e]
@@ -1006,6 +1006,22 @@ def _locate_stmt_range(src, s, e, start_anchor, end_anchor):
     ends = [i for i in range(hits[0], len(texts) - len(b) + 1) if texts[i:i + len(b)] == b]
     if not ends:
         raise VxError("lost anchor: end statement %r not found" % end_anchor)
+    if to_semicolon:
+        # `end_anchor` is the beginning of the last statement: the range runs to that statement's `;`
+        j = ends[0] + len(b)
+        depth = 0
+        while j < len(toks):
+            t = toks[j]
+            if t.kind == "punct" and t.text in _OPEN:
+                depth += 1
+            elif t.kind == "punct" and t.text in _CLOSE:
+                depth -= 1
+            elif t.text == ";" and depth <= 0:
+                break
+            j += 1
+        if j >= len(toks):
+            raise VxError("lost anchor: end statement %r has no terminating `;`" % end_anchor)
+        b = texts[ends[0]:j + 1]
     # braces must balance inside the range
     depth = 0
     for t in toks[hits[0]:ends[0] + len(b)]:
@@ -1029,7 +1045,7 @@ def extract_one(repo, ex, report):
     s, e = locate(src, ex["path"], with_attrs=ex.get("with_attrs", False))
     if ex.get("kind") == "block":
         if ex.get("until"):
-            s, e = _locate_stmt_range(src, s, e, ex["statement"], ex["until"])
+            s, e = _locate_stmt_range(src, s, e, ex["statement"], ex["until"], ex.get("until_to_semicolon", False))
         else:
             s, e = _locate_if_block(src, s, e, ex["statement"])
         raw = ex["wrap_head"] + " {\n        " + (ex["wrap_pre"] + "\n        " if ex.get("wrap_pre") else "") + src[s:e] + "\n" + ("        " + ex["wrap_tail"] + "\n" if ex.get("wrap_tail") else "") + "}"
